@@ -378,6 +378,7 @@ class CodeBuilder:
             f"decoder={type_name(self.decoder)},"
             f"default_dialect={type_name(self.default_dialect)}"
             f"{self._get_attrs_args()}"
+            f"{self._get_type_args_arg()}"
             f").add_unpack_method()"
         )
         unpacker_args = [
@@ -387,6 +388,18 @@ class CodeBuilder:
         unpacker_args_s = ", ".join(filter(None, unpacker_args))
         holder = "cls" if self.is_nailed else "_cls"
         self.add_line(f"return {holder}.{method_name}({unpacker_args_s})")
+
+    def _get_type_args_arg(self) -> str:
+        # a postponed method of a generic class must be compiled for the
+        # same type arguments
+        if not self.initial_type_args:
+            return ""
+        self.add_type_modules(*self.initial_type_args)
+        type_args = "".join(
+            f"{self.get_type_name_identifier(type_arg)},"
+            for type_arg in self.initial_type_args
+        )
+        return f",type_args=({type_args})"
 
     def _get_attrs_args(self) -> str:
         # a method postponed by a codec must be compiled for that codec,
@@ -862,6 +875,7 @@ class CodeBuilder:
             f"encoder_kwargs={self._get_encoder_kwargs()},"
             f"default_dialect={type_name(self.default_dialect)}"
             f"{self._get_attrs_args()}"
+            f"{self._get_type_args_arg()}"
             ").add_pack_method()"
         )
         packer_args = self.get_pack_method_flags(pass_encoder=True)
